@@ -23,7 +23,8 @@ RULE = ("three generated families, all truth assignments (2^n, n<=6; sampled abo
         "flavours - on async callables every condition/capture is drawn from {sync, coroutine function, sync returning "
         "a coroutine, sync returning a non-coroutine awaitable, sync returning a done Future}; oracle = reference trace "
         "(each awaited, its RESULT judged); (C) the two coroutine flavours on sync callables -> ValueError, body not "
-        "run, when the evaluation reaches them. non-trivial = a falsy contract in an async rendering, or a non-sync "
+        "run, when the evaluation reaches them; (D) recursion pairs - the re-entrant call graphs of C10 (contracts and "
+        "bodies calling contracted callables again) rendered sync and async must give the same trace and outcomes. non-trivial = a falsy contract in an async rendering, or a non-sync "
         "flavour that is reached; distinct = hash(family, program, ops, assignment).")
 ASSUMPTIONS = ["coroutines never really suspend here (driven with send(None)); real suspension is C12's business",
                "conditions with a non-sync flavour are named functions or carry an own error (documented requirement)"]
@@ -134,6 +135,77 @@ def nontrivial(case, truth, res, mask, n):
     return bool(flavours_used(case["program"]))
 
 
+def run_recursion_pairs(ctx, tier, seed, n):
+    """Family (D): the call graphs of C10 (conditions, captures, error factories, invariants and bodies that call contracted
+    functions/methods again, bodies bounded by fuel) rendered sync and async; both renderings must evaluate the same."""
+    import sys
+
+    from hypothesis import given
+    from vf.props import c10
+
+    sys.setrecursionlimit(60000)
+
+    @st.composite
+    def st_full(draw):
+        case = draw(c10.st_case())
+        cids = D.all_cids(case["program"])
+        case["masks"] = draw(D.st_masks(len(cids), 4 if tier == "quick" else 6, 8))
+        return case
+
+    @given(st_full())
+    def test(case):
+        cids = D.all_cids(case["program"])
+        codes = {int(k): v for k, v in case["codes"].items()}
+        feats = c10.features(case)
+        for mask in case["masks"]:
+            truth = D.truth_for(cids, codes, mask)
+            check_recursion_pair(ctx, dict(case, truth=truth, family="recursion-pair"))
+            ctx.case(["recursion-pair", case["program"], case["scripts"], case["ops"], case["fuel"], mask],
+                     bool(feats & {"body-recursion", "cycle-through-contract"}), sample=lambda: {
+                         "family": "recursion-pair", "ops": case["ops"], "scripts": case["scripts"], "fuel": case["fuel"],
+                         "truth": truth})
+            for f in feats:
+                ctx.count("recursion-pair:" + f)
+
+    core.run_hypothesis(test, seed, n)
+
+
+def check_recursion_pair(ctx, case):
+    from vf.props import c10
+
+    scripts = {tuple(k): v for k, v in case["scripts"]}
+    truth = {int(k): v for k, v in case["truth"].items()}
+    runs = []
+    for is_async in (False, True):
+        prog = set_async(case["program"], is_async)
+        try:
+            runs.append(H.run_case(prog, case["ops"], truth, model=REF.Model(prog), scripts=scripts, fuel=case["fuel"],
+                                   stack_mb=256, event_budget=6000, ref_kw={"event_budget": 1200}))
+        except REF.RefInconsistency:
+            ctx.count("skipped:reference_too_large")
+            return
+    rs, ra = runs
+    if any(o[0] == "exc" and o[1][0] == "nonterminating" for r in runs for o in r.real_outs):
+        ctx.count("skipped:nonterminating(C10's business)")
+        return
+    tag = ",".join(sorted(c10.features(case)))
+    c = {k: case[k] for k in ("program", "ops", "scripts", "fuel")}
+    c["truth"] = truth
+    c["family"] = "recursion-pair"
+    if rs.real_log != ra.real_log:
+        d = H.first_diff(rs.real_log, ra.real_log)
+        ctx.fail("recursion-pair-trace|%s|sync:%s|async:%s" % (tag, S.ev_short(d[1]), S.ev_short(d[2])), c, c10.describe(
+            c, ra, "sync and async renderings of a re-entrant call graph evaluate differently at event %d\n sync:  %r\n "
+                   "async: %r\nsync trace:\n%s\nasync trace:\n%s" % (d[0], d[1], d[2], H.fmt_trace(rs.real_log, 60),
+                                                                     H.fmt_trace(ra.real_log, 60))))
+        return
+    for i, (so, ao) in enumerate(zip(rs.real_outs, ra.real_outs)):
+        if so[:2] != ao[:2]:
+            ctx.fail("recursion-pair-outcome|%s|sync:%s|async:%s" % (tag, so[0], ao[0]), c, c10.describe(
+                c, ra, "op %d %r: sync rendering -> %r, async rendering -> %r" % (i, case["ops"][i], so[:2], ao[:2])))
+            return
+
+
 def run(ctx, tier, seed, shard, nshards):
     global _active
     warnings.simplefilter("ignore", RuntimeWarning)
@@ -147,9 +219,17 @@ def run(ctx, tier, seed, shard, nshards):
               nontrivial=nontrivial)
     D.explore(ctx, seed + 2, n // 3, st_flavour_case(False), judge_flavours, limit_all=la, n_sample=16,
               nontrivial=nontrivial)
+    run_recursion_pairs(ctx, tier, seed + 3, n // 3)
 
 
 def replay(ctx, case):
     warnings.simplefilter("ignore", RuntimeWarning)
     fam = case.get("family", "pair")
+    if fam == "recursion-pair":
+        import sys
+
+        sys.setrecursionlimit(60000)
+        check_recursion_pair(ctx, case)
+        ctx.evaluations += 1
+        return
     D.replay_case(ctx, case, judge_pair if fam == "pair" else judge_flavours)
